@@ -114,6 +114,14 @@ func init() {
 			RealStub: "real: cobra commands `config validate` and the root command, viper/mapstructure decoding, Validate, InitializeObjects, RunDaemon, curves, controllers; stub/model: libsensors stand-in, world devices, clock, scheduling at seams; the spec validator is the harness's own (yaml.v3)",
 		},
 		PropertyPlan{
+			ID: "C15", Level: "exploration",
+			Families: []FamilyPlan{{Name: "c15", Quick: 64, Thorough: 3000, Chunk: 2, SeedTimeout: 900 * time.Second}},
+			Rule:     "each run = a history of 3-6 incarnations of the real program over one world directory in which only the database survives: daemon starts (each ended by an injected SIGTERM after the analysis had time to finish), `fan reset`, `fan init` (the real cobra commands, each its own process), for one hwmon/file/cmd fan behind a quantising driver with 9-17 levels, with/without a configured pwmMap, with/without configured minPwm+maxPwm. Oracle per daemon start from the journal of PWM writes before the first control cycle: no sweep with a configured map; neither sweep nor measurement and start-up within the fixed waits + 5 s once data was stored and not discarded; no measurement with min+max configured; and the analysis does happen again after reset (vacuity guard). distinct = scenario hash; every history is non-trivial",
+			Probes:   []string{"judged:restart-with-stored-data", "judged:configured-map", "analysis-observed", "incarnations:reset", "incarnations:init"},
+			Assume:   []string{"a sweep is >= 8 PWM writes issued from the automatic PWM-map computation, a measurement >= 3 writes issued from the initialisation sequence outside the sweep"},
+			RealStub: "real: cobra commands (root, fan init, fan reset), YAML loading, RunDaemon, controllers, persistence (bbolt file surviving between processes); stub/model: libsensors stand-in, world devices, clock, scheduling, signal delivery",
+		},
+		PropertyPlan{
 			ID: "C12", Level: "exploration",
 			Families: []FamilyPlan{{Name: "c12", Quick: 240, Thorough: 8000, Chunk: 10}},
 			Rule:     "each run = closed loop with full-range fans (min 0, max 255) and the direct algorithm, where the request equals the curve value; maps from the configuration (sparse, plateaus) or from the real sweep against a quantising driver; every cycle compares the write (or the decision not to write) with the reference nearest-supported-input computation. distinct = scenario hash; non-trivial = at least one write judged",
